@@ -87,6 +87,16 @@ def cases(tier):
             for marker in ('none', 'own'):
                 for k in range(0, len(sibs), 2):
                     out.append((role, marker, (), (c,) + tuple(sibs[k:k + 2]), (db_etm[0],), 'nearmiss'))
+    # interleaved lists: the members of one class (CBC ciphers, ETM MACs) are not neighbours in the peer's list - other ciphers / MACs, the
+    # ChaCha cipher, or members of the other class's look-alikes stand between them (OpenSSH 6.2-6.6 listed arcfour between its CBC ciphers)
+    for role in ('server', 'client'):
+        for marker in ('none', 'own', 'other'):
+            for cb in (tuple(db_cbc[:2]), tuple(db_cbc[:3]), tuple(db_cbc[:4]), ()):
+                for et in (tuple(db_etm[:2]), tuple(db_etm[:3]), ()):
+                    for ch in ((), (dch,)):
+                        if cb or et:
+                            out.append((role, marker, ch, cb, et, 'interleaved'))
+                            out.append((role, marker, ch, cb, et, 'interleaved-twice'))
     # long lists: the relevant name behind N other names, N on both sides of 50, 64, 128 and 255
     for role in ('server', 'client'):
         for marker in ('none', 'own'):
@@ -96,7 +106,7 @@ def cases(tier):
     return out
 
 
-CTX_BANNER = {'proto-1.99': b'SSH-1.99-OpenSSH_9.6', 'proto-1.99-unrecognised': b'SSH-1.99-AcmeSSH_1.0', 'comment': b'SSH-2.0-OpenSSH_9.6p1 Debian-3 SSH-1.5-compat',
+CTX_BANNER = {'interleaved': b'SSH-2.0-OpenSSH_9.6', 'interleaved-twice': b'SSH-2.0-OpenSSH_6.6', 'proto-1.99': b'SSH-1.99-OpenSSH_9.6', 'proto-1.99-unrecognised': b'SSH-1.99-AcmeSSH_1.0', 'comment': b'SSH-2.0-OpenSSH_9.6p1 Debian-3 SSH-1.5-compat',
               'dropbear': b'SSH-2.0-dropbear_2022.83', 'libssh': b'SSH-2.0-libssh_0.10.5', 'tinyssh': b'SSH-2.0-tinyssh_20230101', 'old-openssh': b'SSH-2.0-OpenSSH_7.4',
               'default': b'SSH-2.0-OpenSSH_9.6', 'mixed': b'SSH-2.0-OpenSSH_9.6', 'nearmiss': b'SSH-2.0-OpenSSH_9.6', 'hangup': b'SSH-2.0-OpenSSH_9.6', 'unrecognised': b'SSH-2.0-AcmeSSH_1.0', 'flawless': b'SSH-2.0-OpenSSH_9.6'}
 
@@ -126,6 +136,16 @@ def build(case):
     mac = [FILL_MAC if ctx != 'flawless' else 'hmac-sha2-512-etm@openssh.com'] + [m for m in et if ctx != 'flawless' or m != 'hmac-sha2-512-etm@openssh.com']
     if ctx.startswith('asym:'):
         return kex, [FILL_ENC], [FILL_MAC]
+    if ctx.startswith('interleaved'):
+        fe, fm = ['aes128-ctr', 'arcfour', 'aes256-gcm@openssh.com', 'aes256-ctr'], ['hmac-sha2-256', 'hmac-md5', 'umac-64@openssh.com', 'hmac-sha2-512']
+        enc, mac = [], []
+        for i, c in enumerate(cb):
+            enc += [c, fe[i % 4]] + (list(ch) if i == 0 else [])
+        for i, m in enumerate(et):
+            mac += [m, fm[i % 4]]
+        if ctx == 'interleaved-twice':      # and once more round: every member twice, still never next to a relative
+            enc, mac = enc + enc, mac + mac
+        return kex, (enc or [FILL_ENC] + list(ch)), (mac or [FILL_MAC])
     if ctx.startswith('long:'):
         n = int(ctx[5:])
         enc = ['filler-enc-%03d@example.org' % i for i in range(n - 1)] + [FILL_ENC] + list(ch) + list(cb)
@@ -295,6 +315,9 @@ HIST = {
 }
 
 
+_alone = {}
+
+
 def work_history(chunk, st):
     for kinds, fmt in chunk:
         servers = [peer.Server(kex=HIST[k][0], enc=HIST[k][1], mac=HIST[k][2], banner=b'SSH-2.0-OpenSSH_9.6') for k in kinds]
@@ -319,6 +342,19 @@ def work_history(chunk, st):
                     flagged += [a['name'] for a in rep.algs[cat] if any(T.TERRAPIN_NOTE in t for _l, t in a['notes'])]
             if sorted(flagged) != sorted(want):
                 st.violation('history:warnings-depend-on-earlier-targets:%s' % fmt, {'targets_in_run': kinds, 'target': k, 'flagged': flagged, 'expected': want})
+            # ... and so are the recommendations (what is, and is not, recommended for addition follows the same rule): those of a fresh audit
+            # of this target alone
+            if k not in _alone:
+                _alone[k] = {}
+            if fmt not in _alone[k]:
+                one = H.audit(peer.Server(kex=kex, enc=enc, mac=mac, banner=b'SSH-2.0-OpenSSH_9.6'), opts=['-n', '--skip-rate-test'] + (['-j'] if fmt == 'json' else []))
+                try:
+                    _alone[k][fmt] = json.dumps(json.loads(one.stdout).get('recommendations'), sort_keys=True) if fmt == 'json' else sorted(report.TextReport(one.stdout).rec)
+                except ValueError:
+                    _alone[k][fmt] = None
+            got = json.dumps(o.get('recommendations'), sort_keys=True) if fmt == 'json' else sorted(report.TextReport(o).rec)
+            if _alone[k][fmt] is not None and got != _alone[k][fmt]:
+                st.violation('history:recommendations-depend-on-earlier-targets:%s' % fmt, {'targets_in_run': kinds, 'target': k, 'got': str(got)[:300], 'alone': str(_alone[k][fmt])[:300]})
     st.sample({'history': list(chunk[0][0]), 'fmt': chunk[0][1]}, cap=14)
 
 
